@@ -11,30 +11,47 @@ muduo/net/TcpConnection.cc -> coq/Gen_Conn.v:
     forced close holds, the order of disableWriting / shutdownInLoop in the drain path, ...
 coq/Conn_GenTie*.v prove each of them equal to what Conn_Model does; a flipped comparison, a dropped
 conjunct, another state constant or a changed argument in the source breaks those lemmas directly.
-A function whose if-structure no longer matches is reported as FALLBACK and its definitions are
-omitted, so the tie lemmas about it stop compiling (fail closed)."""
+Guards are selected by CONTENT, not by position: the if-statements of a function are walked in source
+order; each expected guard is matched to the next if whose condition translates and has exactly the
+expected free variables (= the signature the tie lemma applies it to); an if in between is tolerated
+only when its branches do nothing but log (LOG_* streams, getters): an added logging `if` does not
+disturb the tie, a flipped operator or constant keeps the variables and breaks the link lemma, and
+anything else - a guard with other variables, a missing guard, an extra if that assigns, returns or
+calls non-logging code - is reported as FALLBACK and the function's definitions are omitted, so the
+tie lemmas about it stop compiling (fail closed)."""
 import os, sys, json
 sys.path.insert(0, os.path.dirname(os.path.abspath(__file__)))
 import cxxast
 
 SRC = "muduo/net/TcpConnection.cc"
 
-# function -> names of its if-statements in source order ("log_trace" = the LOG_TRACE macro's own level test)
+# function -> its protocol guards in source order: (name, free variables of the translated condition)
 WANT = {
-    "TcpConnection::sendInLoop": ["state_test", "direct_test", "write_ok_test", "wc_test", "not_wouldblock_test", "fatal_test",
-                                  "queue_test", "hwm_test", "enable_test"],
-    "TcpConnection::handleWrite": ["writing_test", "progress_test", "emptied_test", "wc2_test", "disconnecting_test", "log_trace"],
-    "TcpConnection::shutdownInLoop": ["notwriting_test"],
-    "TcpConnection::connectDestroyed": ["destroy_state_test"],
-    "TcpConnection::forceCloseInLoop": ["forceclose_state_test"],
-    "TcpConnection::startReadInLoop": ["startread_test"],
-    "TcpConnection::stopReadInLoop": ["stopread_test"],
-    # added 2026-10-01
-    "TcpConnection::shutdown": ["state_test"],
-    "TcpConnection::forceClose": ["state_test"],
-    "TcpConnection::forceCloseWithDelay": ["state_test"],
-    "TcpConnection::handleRead": ["data_test", "eof_test"],
+    "TcpConnection::sendInLoop": [("state_test", {"kDisconnected", "state"}),
+                                  ("direct_test", {"isWriting", "outputBuffer_readableBytes"}),
+                                  ("write_ok_test", {"nwrote"}),
+                                  ("wc_test", {"has_writeCompleteCallback", "remaining"}),
+                                  ("not_wouldblock_test", {"errno"}),
+                                  ("fatal_test", {"errno"}),
+                                  ("queue_test", {"faultError", "remaining"}),
+                                  ("hwm_test", {"has_highWaterMarkCallback", "highWaterMark", "oldLen", "remaining"}),
+                                  ("enable_test", {"isWriting"})],
+    "TcpConnection::handleWrite": [("writing_test", {"isWriting"}), ("progress_test", {"n"}),
+                                   ("emptied_test", {"outputBuffer_readableBytes"}),
+                                   ("wc2_test", {"has_writeCompleteCallback"}),
+                                   ("disconnecting_test", {"kDisconnecting", "state"})],
+    "TcpConnection::shutdownInLoop": [("notwriting_test", {"isWriting"})],
+    "TcpConnection::connectDestroyed": [("destroy_state_test", {"kConnected", "kDisconnecting", "state"})],
+    "TcpConnection::forceCloseInLoop": [("forceclose_state_test", {"kConnected", "kDisconnecting", "state"})],
+    "TcpConnection::startReadInLoop": [("startread_test", {"isReading", "kDisconnected", "reading", "state"})],
+    "TcpConnection::stopReadInLoop": [("stopread_test", {"isReading", "kDisconnected", "reading", "state"})],
+    "TcpConnection::shutdown": [("state_test", {"kConnected", "state"})],
+    "TcpConnection::forceClose": [("state_test", {"kConnected", "kDisconnecting", "state"})],
+    "TcpConnection::forceCloseWithDelay": [("state_test", {"kConnected", "kDisconnecting", "state"})],
+    "TcpConnection::handleRead": [("data_test", {"n"}), ("eof_test", {"n"})],
 }
+# the two guards of the send() overloads that test the state
+SEND_GUARDS = [("state_test", {"kConnected", "state"}), ("inloop_test", {"loop_isInLoopThread"})]
 # overloads of send() that carry the state test, selected by parameter type
 SEND_OVERLOADS = [("send_sp", "StringPiece"), ("send_buf", "Buffer")]
 # asserts (ConditionalOperator of the assert macro) : function -> name
@@ -60,6 +77,56 @@ def methods(qualname):
 
 def ifs(fn):
     return [n for n in cxxast.walk(fn) if n.get("kind") == "IfStmt"]
+
+
+LOG_CALLS = {"operator<<", "stream", "logLevel", "Logger", "~Logger", "fd", "name", "stateToString", "c_str", "data", "size",
+             "readableBytes", "strerror_tl", "getSocketError", "get", "operator->", "operator*", "toIpPort", "toString", None}
+
+
+def logging_only(ifnode):
+    """both branches of the if do nothing but build a log line: no assignment, no ++/--, no return/break/continue/goto,
+    no call outside the logging vocabulary"""
+    for br in kids(ifnode)[1:]:
+        for m in cxxast.walk(br):
+            k = m.get("kind")
+            if k in ("ReturnStmt", "BreakStmt", "ContinueStmt", "GotoStmt", "CompoundAssignOperator", "CXXThrowExpr", "CXXNewExpr", "CXXDeleteExpr"):
+                return False
+            if k == "BinaryOperator" and m.get("opcode") in ("=", "+=", "-=", "*=", "/=", "|=", "&=", "^=", "<<=", ">>="):
+                return False
+            if k == "UnaryOperator" and m.get("opcode") in ("++", "--"):
+                return False
+            if k in ("CXXMemberCallExpr", "CallExpr", "CXXOperatorCallExpr") and callee_name(m) not in LOG_CALLS:
+                return False
+    return True
+
+
+def cond_vars(cond):
+    g = cxxast.GExpr()
+    try:
+        g.tr(cond, "bool")
+    except cxxast.Untranslatable:
+        return None
+    return set(g.vars)
+
+
+def select(fn, expected):
+    """match the expected guards (name, varset) to the ifs of fn in source order; returns ([(name, if-node)], notes) or
+    raises Untranslatable (fail closed)"""
+    todo = list(expected)
+    sel, notes = [], []
+    for n in ifs(fn):
+        vs = cond_vars(kids(n)[0])
+        if todo and vs is not None and vs == todo[0][1]:
+            sel.append((todo.pop(0)[0], n))
+        elif logging_only(n):
+            notes.append("if at line %s only logs: ignored" % n.get("range", {}).get("begin", {}).get("line", "?"))
+        else:
+            raise cxxast.Untranslatable("unexpected if (variables %s) that is neither the next protocol guard%s nor logging-only"
+                                        % (sorted(vs) if vs is not None else "untranslatable",
+                                           " (%s %s)" % (todo[0][0], sorted(todo[0][1])) if todo else ""))
+    if todo:
+        raise cxxast.Untranslatable("guard(s) not found: %s" % ", ".join(nm for nm, _ in todo))
+    return sel, notes
 
 
 def callee_name(call):
@@ -136,37 +203,46 @@ def main():
         list(ex.map(lambda q: cxxast.dump(SRC, q), names_all))
 
     fns = {}
-    for fn, names in WANT.items():
+    sel_ifs = {}
+    for fn, expected in WANT.items():
         short = fn.split("::")[1]
         try:
             f = cxxast.function_decl(SRC, fn)
-            conds = [kids(n)[0] for n in ifs(f)]
         except Exception as e:
             print("MISSING %s: %s" % (fn, e))
             continue
-        if len(conds) != len(names):
-            print("FALLBACK %s: %d if-statements, expected %d (source restructured); guards of this function not tied" % (fn, len(conds), len(names)))
-            out.append("(* FALLBACK %s: %d if-statements found, %d expected *)" % (fn, len(conds), len(names)))
+        try:
+            sel, notes = select(f, expected)
+        except cxxast.Untranslatable as e:
+            print("FALLBACK %s: %s; guards of this function not tied" % (fn, e))
+            out.append("(* FALLBACK %s: %s *)" % (fn, str(e).replace("*)", "* )")))
             continue
+        for nt in notes:
+            out.append("(* NOTE %s: %s *)" % (fn, nt))
         fns[short] = f
-        for nm, c in zip(names, conds):
-            if nm == "log_trace":
-                continue      # the LOG_TRACE macro's own level test: not a guard of the protocol
-            emit_guard("%s_%s" % (short, nm), c)
+        sel_ifs[short] = dict(sel)
+        for nm, n in sel:
+            emit_guard("%s_%s" % (short, nm), kids(n)[0])
 
     # ---- send(): the overloads that test the state
     try:
         ms = methods("TcpConnection::send")
         for prefix, ty in SEND_OVERLOADS:
-            sel = [m for m in ms if ty in m.get("type", {}).get("qualType", "")]
-            if len(sel) != 1 or len(ifs(sel[0])) != 2:
-                print("FALLBACK TcpConnection::send(%s): overload not found or restructured" % ty)
+            cand = [m for m in ms if ty in m.get("type", {}).get("qualType", "")]
+            if len(cand) != 1:
+                print("FALLBACK TcpConnection::send(%s): overload not found" % ty)
                 out.append("(* FALLBACK send(%s) *)" % ty)
                 continue
-            i0, i1 = ifs(sel[0])
-            fns[prefix] = sel[0]
-            emit_guard("%s_state_test" % prefix, kids(i0)[0])
-            emit_guard("%s_inloop_test" % prefix, kids(i1)[0])
+            try:
+                sel, notes = select(cand[0], SEND_GUARDS)
+            except cxxast.Untranslatable as e:
+                print("FALLBACK TcpConnection::send(%s): %s" % (ty, e))
+                out.append("(* FALLBACK send(%s): %s *)" % (ty, str(e).replace("*)", "* )")))
+                continue
+            fns[prefix] = cand[0]
+            sel_ifs[prefix] = dict(sel)
+            for nm, n in sel:
+                emit_guard("%s_%s" % (prefix, nm), kids(n)[0])
         ptr = [m for m in ms if "const void" in m.get("type", {}).get("qualType", "")]
         fact("send_ptr_delegates_to_send", lambda: len(ptr) == 1 and has_call(ptr[0], "send") and not ifs(ptr[0]),
              "send(const void*, int) only forwards to send(StringPiece)")
@@ -216,10 +292,10 @@ def main():
         expr("sendInLoop_hwm_arg", hw_arg, "the size handed to the high-water-mark callback")
 
         def resets():
-            i = [n for n in ifs(f) if n.get("hasElse")]
-            if len(i) != 1:
-                raise cxxast.Untranslatable("%d if/else in sendInLoop" % len(i))
-            first = kids(kids(i[0])[2])[0]
+            i = sel_ifs["sendInLoop"]["write_ok_test"]
+            if not i.get("hasElse"):
+                raise cxxast.Untranslatable("no else branch of `nwrote >= 0`")
+            first = kids(kids(i)[2])[0]
             l, r = kids(first)
             return first.get("kind") == "BinaryOperator" and first.get("opcode") == "=" and \
                 cxxast.strip(l).get("referencedDecl", {}).get("name") == "nwrote" and cxxast.const_eval(r) == 0
@@ -240,13 +316,13 @@ def main():
         fact("shutdownInLoop_shuts_write", lambda: has_call(fns["shutdownInLoop"], "shutdownWrite"), "shutdownInLoop calls socket_->shutdownWrite()")
     for prefix, copy_call in (("send_sp", "as_string"), ("send_buf", "retrieveAllAsString")):
         if prefix in fns:
-            i1 = ifs(fns[prefix])[1]
+            i1 = sel_ifs[prefix]["inloop_test"]
             then_b, else_b = kids(i1)[1], kids(i1)[2]
             fact("%s_inloop_sends_inline" % prefix, lambda t=then_b: has_call(t, "sendInLoop"), "loop thread: sendInLoop is called inline")
             fact("%s_foreign_copies_payload" % prefix, lambda e=else_b, c=copy_call: has_call(e, c) and has_call(e, "runInLoop") and has_call(e, "bind"),
                  "foreign thread: the functor handed to runInLoop owns a copy of the payload (%s)" % copy_call)
     if "send_buf" in fns:
-        i1 = ifs(fns["send_buf"])[1]
+        i1 = sel_ifs["send_buf"]["inloop_test"]
         fact("send_buf_inloop_empties_caller_buffer", lambda: has_call(kids(i1)[1], "retrieveAll"), "send(Buffer*) on the loop thread empties the caller's buffer")
     if "shutdown" in fns:
         fact("shutdown_runs_in_loop", lambda: has_call(fns["shutdown"], "runInLoop") and has_call(fns["shutdown"], "setState"), "shutdown(): setState + runInLoop(shutdownInLoop)")
@@ -257,7 +333,7 @@ def main():
         fact("forceCloseWithDelay_holds_weak_ref", lambda: has_call(fns["forceCloseWithDelay"], "makeWeakCallback") and has_call(fns["forceCloseWithDelay"], "runAfter")
              and has_call(fns["forceCloseWithDelay"], "setState"), "forceCloseWithDelay(): setState + runAfter(makeWeakCallback(shared_from_this(), forceClose))")
     if "handleRead" in fns:
-        i0, i1 = ifs(fns["handleRead"])
+        i0, i1 = sel_ifs["handleRead"]["data_test"], sel_ifs["handleRead"]["eof_test"]
         fact("handleRead_dispatch", lambda: has_call(kids(i0)[1], "operator()") and has_call(kids(i1)[1], "handleClose") and not has_call(kids(i1)[1], "handleError")
              and has_call(kids(i1)[2], "handleError") and not has_call(kids(i1)[2], "handleClose"),
              "handleRead: n > 0 -> message callback; n == 0 -> handleClose; else -> handleError only")
